@@ -636,3 +636,22 @@ package db
 //@ ensures[catchup] path == r.path ==> opens == old(opens) && (err == nil ==> result0 == r && catchups == old(catchups) + 1)
 //@ ensures[switch] path != r.path ==> opens == old(opens) + 1 && openedPath == path && catchups == old(catchups) && (err == nil ==> result0 != nil && fresh(result0) && result0 != r)
 //@ ensures[fail] err != nil ==> result0 == nil
+
+// ---- C02/C13: the closest-key map walk of the v2 reader: index safety ---------------------------------------------
+// findMapInSortedData re-slices its search key after every probe. Claimed: the new length never exceeds the buffer
+// (after the repair of the wildcard-map-owner defect the common prefix is cut back to a proper prefix of the name
+// whenever the closest key belongs to the very name looked up), every access to the found key, and termination of
+// the round. Not claimed: that stored keys are well-formed names (the precondition of the two label helpers) and
+// that a stored map value has its 4-byte multi-value header.
+//@ func rdbdriver.findClosest
+//@ trusted
+//@ ensures err != nil ==> k == nil && v == nil
+//@ func rdbdriver.findMapInSortedData
+//@ flag skip frame
+//@ flag unclaimed /pre/findCommonLongestPrefix|/pre/getLengthWithoutLastLabel|/bounds/foundValue\[4:\]|/bounds/foundKey\[prefixLen:len\(foundKey\)-1\]
+//@ ghost n int, offs seq, idx seq, roffs seq, ridx seq
+//@ requires wfname(domain, n, offs, idx) && revoffs(domain, n, offs, roffs, ridx) && len(mtype) == 2 && r != nil && context != nil && dyntype(context) == ptrtag("rdb.Context")
+// (facts of the package's initialisers)
+//@ requires len(exactMatchKeyElement) == 1 && len(wildcardKeyElement) == 1
+//@ call reverseZoneName#0 ghost n = n; offs = offs; idx = idx; roffs = roffs; ridx = ridx
+//@ loop 0 invariant[buf] prefixLen == 2 && len(suffix) == 1 && len(reversedZone) == len(domain) && cap(k) >= len(reversedZone) + 3 && len(k) >= prefixLen + 1 + len(suffix) && len(k) <= len(reversedZone) + 3 && fresh(k)
